@@ -717,37 +717,54 @@ def matchWithDelim (s b : Bytes) : Nat :=
     | none => s.length
   else 0
 
-/-- `Decoder.parseNext`: the token and the new `d.in` -/
-def parseNext (inp0 : Bytes) : Except Err (Token × Bytes) :=
-  let inp := dropWs inp0
-  match inp with
+/-- the `'n'`, `'t'`, `'f'` cases of `parseNext`: `matchWithDelim(lit, in)`, then `consumeToken` -/
+def lexLit (k : Kind) (lit : Bytes) (boo : Bool) (inp : Bytes) : Except Err (Token × Nat) :=
+  if matchWithDelim lit inp ≠ 0 then .ok ({ kind := k, raw := lit, boo := boo }, lit.length)
+  else .error .syntax
+
+/-- the number case of `parseNext`; `pn` is `parseNumber` (a parameter so that the same definitions
+serve the current code and the code with the repair fixes/json-exponent-digits.diff) -/
+def lexNumber (pn : Bytes → Option Nat) (inp : Bytes) : Except Err (Token × Nat) :=
+  match pn inp with
+  | some n => .ok ({ kind := .number, raw := inp.take n }, n)
+  | none => .error .syntax
+
+/-- the string case of `parseNext` -/
+def lexString (inp : Bytes) : Except Err (Token × Nat) :=
+  match parseString inp with
+  | .error e => .error e
+  | .ok (s, n) => .ok ({ kind := .string, raw := inp.take n, str := s }, n)
+
+/-- the one-byte tokens of `parseNext` -/
+def lexPunct (c : Byte) : Except Err (Token × Nat) :=
+  if c = 0x7b#8 then .ok ({ kind := .objOpen, raw := [c] }, 1)
+  else if c = 0x7d#8 then .ok ({ kind := .objClose, raw := [c] }, 1)
+  else if c = 0x5b#8 then .ok ({ kind := .arrOpen, raw := [c] }, 1)
+  else if c = 0x5d#8 then .ok ({ kind := .arrClose, raw := [c] }, 1)
+  else if c = 0x2c#8 then .ok ({ kind := .comma, raw := [c] }, 1)
+  else .error .syntax
+
+/-- the `switch in[0]` of `parseNext` for a non-empty, whitespace-trimmed input `inp` whose first
+byte is `c`: the token and its size in bytes -/
+def lexTokG (pn : Bytes → Option Nat) (c : Byte) (inp : Bytes) : Except Err (Token × Nat) :=
+  if c = 0x6e#8 then lexLit .null litNull false inp                 -- 'n'
+  else if c = 0x74#8 then lexLit .bool litTrue true inp             -- 't'
+  else if c = 0x66#8 then lexLit .bool litFalse false inp           -- 'f'
+  else if c = 0x2d#8 ∨ isDigit c = true then lexNumber pn inp       -- '-', '0' … '9'
+  else if c = 0x22#8 then lexString inp                             -- '"'
+  else lexPunct c
+
+/-- `Decoder.parseNext`: the token and the new `d.in` (`consumeToken` trims the whitespace that
+follows the token) -/
+def parseNextG (pn : Bytes → Option Nat) (inp0 : Bytes) : Except Err (Token × Bytes) :=
+  match dropWs inp0 with
   | [] => .ok ({ kind := .eof }, [])
   | c :: t =>
-    if c = 0x6e#8 then                                          -- 'n'
-      if matchWithDelim litNull inp ≠ 0 then .ok ({ kind := .null, raw := litNull }, dropWs (inp.drop 4))
-      else .error .syntax
-    else if c = 0x74#8 then                                     -- 't'
-      if matchWithDelim litTrue inp ≠ 0 then
-        .ok ({ kind := .bool, raw := litTrue, boo := true }, dropWs (inp.drop 4))
-      else .error .syntax
-    else if c = 0x66#8 then                                     -- 'f'
-      if matchWithDelim litFalse inp ≠ 0 then
-        .ok ({ kind := .bool, raw := litFalse, boo := false }, dropWs (inp.drop 5))
-      else .error .syntax
-    else if c = 0x2d#8 ∨ isDigit c = true then                  -- '-', '0' … '9'
-      match parseNumber inp with
-      | some n => .ok ({ kind := .number, raw := inp.take n }, dropWs (inp.drop n))
-      | none => .error .syntax
-    else if c = 0x22#8 then                                     -- '"'
-      match parseString inp with
-      | .error e => .error e
-      | .ok (s, n) => .ok ({ kind := .string, raw := inp.take n, str := s }, dropWs (inp.drop n))
-    else if c = 0x7b#8 then .ok ({ kind := .objOpen, raw := [c] }, dropWs t)
-    else if c = 0x7d#8 then .ok ({ kind := .objClose, raw := [c] }, dropWs t)
-    else if c = 0x5b#8 then .ok ({ kind := .arrOpen, raw := [c] }, dropWs t)
-    else if c = 0x5d#8 then .ok ({ kind := .arrClose, raw := [c] }, dropWs t)
-    else if c = 0x2c#8 then .ok ({ kind := .comma, raw := [c] }, dropWs t)
-    else .error .syntax
+    match lexTokG pn c (c :: t) with
+    | .error e => .error e
+    | .ok (tok, n) => .ok (tok, dropWs ((c :: t).drop n))
+
+def parseNext (inp0 : Bytes) : Except Err (Token × Bytes) := parseNextG parseNumber inp0
 
 def Kind.isScalar : Kind → Bool
   | .null | .bool | .number | .string => true
@@ -784,47 +801,57 @@ def checkSeq (last : Kind) (stack : List Open) (k : Kind) : Option (List Open) :
     else if last.isScalar || last = .objClose || last = .arrClose then some stack else none
   | _ => none
 
+/-- the String case of `Decoder.Read`: a value, or a field name followed by `:` -/
+def readString (st : DState) (tok : Token) (rest : Bytes) : Except Err (Token × DState) :=
+  if isValueNext st.lastKind st.stack then
+    .ok (tok, { st with lastKind := .string, inp := rest })
+  else if ¬ (st.lastKind = .objOpen ∨ st.lastKind = .comma) then .error .syntax
+  else
+    match rest with
+    | [] => .error .eof
+    | c :: t =>
+      if c ≠ 0x3a#8 then .error .syntax                       -- missing ":" after field name
+      else .ok ({ tok with kind := .name }, { st with lastKind := .name, inp := dropWs t })
+
 /-- `Decoder.Read` (without the Peek cache).  Fuel: the recursion `if d.lastToken.kind == comma
 { return d.Read() }` consumes at least one byte per level; `len(in) + 1` always suffices. -/
-def read : Nat → DState → Except Err (Token × DState)
+def readG (pn : Bytes → Option Nat) : Nat → DState → Except Err (Token × DState)
   | 0, _ => .error .syntax
   | fuel+1, st =>
-    match parseNext st.inp with
+    match parseNextG pn st.inp with
     | .error e => .error e
     | .ok (tok, rest) =>
-      if tok.kind = .string then
-        if isValueNext st.lastKind st.stack then
-          .ok (tok, { st with lastKind := .string, inp := rest })
-        else if ¬ (st.lastKind = .objOpen ∨ st.lastKind = .comma) then .error .syntax
-        else
-          match rest with
-          | [] => .error .eof
-          | c :: t =>
-            if c ≠ 0x3a#8 then .error .syntax                       -- missing ":" after field name
-            else .ok ({ tok with kind := .name }, { st with lastKind := .name, inp := dropWs t })
+      if tok.kind = .string then readString st tok rest
       else
         match checkSeq st.lastKind st.stack tok.kind with
         | none => if tok.kind = .eof then .error .eof else .error .syntax
         | some stack' =>
-          let st' : DState := { lastKind := tok.kind, stack := stack', inp := rest }
-          if tok.kind = .comma then read fuel st' else .ok (tok, st')
+          if tok.kind = .comma then readG pn fuel { lastKind := tok.kind, stack := stack', inp := rest }
+          else .ok (tok, { lastKind := tok.kind, stack := stack', inp := rest })
+
+def read (fuel : Nat) (st : DState) : Except Err (Token × DState) := readG parseNumber fuel st
 
 /-- `for { tok := d.Read(); if err → stop; if tok is EOF → stop }` — the tokens read before EOF -/
-def readAll : Nat → DState → Except (Err × List Token) (List Token)
+def readAllG (pn : Bytes → Option Nat) : Nat → DState → Except (Err × List Token) (List Token)
   | 0, _ => .error (.syntax, [])
   | fuel+1, st =>
-    match read (st.inp.length + 1) st with
+    match readG pn (st.inp.length + 1) st with
     | .error e => .error (e, [])
     | .ok (tok, st') =>
       if tok.kind = .eof then .ok []
       else
-        match readAll fuel st' with
+        match readAllG pn fuel st' with
         | .ok ts => .ok (tok :: ts)
         | .error (e, ts) => .error (e, tok :: ts)
 
 /-- run a fresh `Decoder` over `b` until EOF or the first error -/
-def decodeAll (b : Bytes) : Except (Err × List Token) (List Token) :=
-  readAll (b.length + 2) { inp := b }
+def decodeAllG (pn : Bytes → Option Nat) (b : Bytes) : Except (Err × List Token) (List Token) :=
+  readAllG pn (b.length + 2) { inp := b }
+
+def decodeAll (b : Bytes) : Except (Err × List Token) (List Token) := decodeAllG parseNumber b
+
+/-- the decoder once the repair fixes/json-exponent-digits.diff is applied -/
+def decodeAllFixed (b : Bytes) : Except (Err × List Token) (List Token) := decodeAllG parseNumberFixed b
 
 /-! ## Part 2d — protojson/decode.go: integers -/
 
